@@ -350,7 +350,7 @@ void ExecImpl::op_call(const Op& op) {
     for (auto& c : o.clauses) {
       if (c.kind == 'W') continue;
       if (c.inst != cand) {
-        fail("C02,C08", "foreign_action", std::string("clause ") + c.kind + std::to_string(c.k) + " of exp#" + std::to_string(c.inst) + " ran, but the model says " + describe_exp(cand) + " handles the call; " + call_desc());
+        fail("C02,C03,C08", "foreign_action", std::string("clause ") + c.kind + std::to_string(c.k) + " of exp#" + std::to_string(c.inst) + " ran, but the model says " + describe_exp(cand) + " handles the call; " + call_desc());
         return;
       }
       if (j >= acts.size() || acts[j].kind != c.kind || acts[j].k != c.k) {
@@ -379,7 +379,7 @@ void ExecImpl::op_call(const Op& op) {
       for (auto& a : acts) os << ' ' << a.kind << a.k;
       os << "); outcome " << outcome_name(o.outcome) << "; " << call_desc();
       // when nothing of the handler ran but the value identifies another expectation, it is a selection problem
-      fail((j == 0 && o.outcome == OC_RET_INT && (o.value >> 3) != cand) ? "C02,C08" : "C08", "action_missing", os.str());
+      fail((j == 0 && o.outcome == OC_RET_INT && (o.value >> 3) != cand) ? "C02,C03,C08" : "C08", "action_missing", os.str());
       return;
     }
   }
@@ -424,7 +424,7 @@ void ExecImpl::op_call(const Op& op) {
       os << "caller received " << outcome_name(o.outcome) << ' ' << o.value << ' ' << o.sval << " but " << describe_exp(cand) << " should give " << outcome_name(wo) << ' ' << wv << ' ' << ws << "; " << call_desc();
       const char* props = "C08";
       if (wo == OC_RET_REF && o.outcome == OC_RET_REF) props = "C08,C09";
-      else if ((o.outcome == OC_RET_INT && (o.value >> 3) != cand)) props = "C02,C08";
+      else if ((o.outcome == OC_RET_INT && (o.value >> 3) != cand)) props = "C02,C03,C08";
       else if (o.outcome == wo && (wo == OC_RET_INT || wo == OC_RET_STR)) props = "C08,C09";
       fail(props, "outcome", os.str());
       return;
